@@ -5,6 +5,7 @@ from __future__ import annotations
 
 import asyncio
 import itertools
+import logging
 from typing import Any, Dict, List, Optional
 
 from harness.common import tok_str
@@ -20,7 +21,9 @@ MANIFEST = {
              "errors), the session requester makes at most three attempts and repeats only after connection-level "
              "failures; host_zone_stripped: for every zoned URL of the grammar and all header maps exactly one Host header "
              "without zone is sent; fixed_host_text: the text-level transcription of _fixed_host_header equals the grammar-level "
-             "function assuming only urlparse's hostname/port (assumption compared with the real urlparse on every case). The ladders, the retry count and the issubclass matrix are regenerated from aiohttp.py / "
+             "function assuming only urlparse's hostname/port; logging_transparent: result and attempts do not depend on the traffic "
+             "logger being at DEBUG, whatever the response bodies (log blocks extracted and pinned by the translator); it also covers "
+             "urlparse's hostname/port (assumption compared with the real urlparse on every case). The ladders, the retry count and the issubclass matrix are regenerated from aiohttp.py / "
              "exceptions.py on every run (tools/gen_c17.py) and the finite facts are re-decided; the interpreter of the "
              "tables is validated against the real requesters over a scripted fake ClientSession."),
     "note": ("Trusted: Lean kernel + standard axioms; the translator (ast shapes it accepts; refuses others); the fake "
@@ -91,17 +94,33 @@ class FakeResponse:
         self.status = out.get("status", 200)
         self.headers = make_headers(out.get("headers", {}))
 
+    def _raw(self) -> bytes:
+        if self._out.get("stage") == "text" and self._out.get("exc") == "UnicodeDecodeError":
+            return b"\xe9t\xe9 <root/>"          # undeclared charset, not UTF-8: a genuinely undecodable body
+        return raw_body(self._out)
+
+    def _encoding(self) -> str:
+        """aiohttp's ClientResponse.get_encoding: declared charset if known, else utf-8"""
+        import codecs
+        import re
+
+        m = re.search(r"charset=\"?([\w-]+)", self.headers.get("Content-Type", ""), re.I)
+        if m:
+            try:
+                return codecs.lookup(m.group(1)).name
+            except LookupError:
+                pass
+        return "utf-8"
+
     async def read(self) -> bytes:
         if self._out.get("stage") == "read":
             raise make_exc(self._out["exc"], self._out.get("st"))
-        return self._out.get("body", "").encode()
+        return self._raw()
 
     async def text(self) -> str:
-        if self._out.get("stage") == "text":
-            if self._out["exc"] == "UnicodeDecodeError":
-                return b"\xff\xfe<root/>".decode("utf-8")  # a genuinely undecodable body
+        if self._out.get("stage") == "text" and self._out["exc"] != "UnicodeDecodeError":
             raise make_exc(self._out["exc"], self._out.get("st"))
-        return self._out.get("body", "")
+        return self._raw().decode(self._encoding())
 
 
 class FakeCM:
@@ -137,6 +156,46 @@ class FakeSession:
 
     async def __aexit__(self, *a: Any) -> bool:
         return False
+
+
+def raw_body(out: Dict[str, Any]) -> bytes:
+    """wire bytes of a successful outcome: its text in the charset declared by its Content-Type"""
+    import re
+
+    m = re.search(r"charset=\"?([\w-]+)", out.get("headers", {}).get("Content-Type", ""), re.I)
+    return out.get("body", "").encode(m.group(1) if m else "utf-8")
+
+
+def is_utf8(b: bytes) -> bool:
+    try:
+        b.decode("utf-8")
+        return True
+    except UnicodeDecodeError:
+        return False
+
+
+class _FormatAll(logging.Handler):
+    """forces the lazy %-formatting of every record (what any real handler does) and discards it"""
+
+    def emit(self, record: logging.LogRecord) -> None:
+        try:
+            record.getMessage()
+        except Exception:  # noqa: BLE001 - formatting errors are swallowed by logging itself
+            pass
+
+
+_HANDLER = _FormatAll()
+LOGGERS = {"traffic": "async_upnp_client.traffic.upnp", "module": "async_upnp_client.aiohttp"}
+
+
+def set_logging(mode: str) -> None:
+    """mode in {"off", "traffic", "module", "both"}: which of the two loggers is at DEBUG"""
+    for key, name in LOGGERS.items():
+        lg = logging.getLogger(name)
+        lg.propagate = False
+        if _HANDLER not in lg.handlers:
+            lg.addHandler(_HANDLER)
+        lg.setLevel(logging.DEBUG if mode in (key, "both") else logging.WARNING)
 
 
 # ---------------------------------------------------------------------------------------------
@@ -178,9 +237,11 @@ def run_recipe(ctx: Ctx, recipe: Dict[str, Any], cid: str) -> Case:
              f"url {u['kind']} {u['scheme']} {tok_str(u['a'])} {tok_str(u.get('d', ''))} {tok_str(u.get('z', ''))} "
              f"{u.get('port') or '-'} {tok_str(u['path'])}",
              f"own {fmt_headers(own or {})}", f"caller {fmt_headers(caller)}"]
+    logmode = recipe.get("log", "off")
+    lines.append(f"log {'T' if logmode in ('traffic', 'both') else 'F'}")
     tags = {f"kind:{kind}", f"url:{u['kind']}{'+port' if u.get('port') else ''}",
             "caller:" + ("none" if caller is None else "host" if any(k.lower() == "host" for k in caller) else "other"),
-            f"len:{len(ops)}"}
+            f"len:{len(ops)}", f"log:{logmode}"}
     from urllib.parse import urlparse
 
     pu = urlparse(url)
@@ -190,13 +251,16 @@ def run_recipe(ctx: Ctx, recipe: Dict[str, Any], cid: str) -> Case:
             lines.append(f"out exc {out['exc']} {out['st'] if out.get('st') is not None else '-'}")
         else:
             lines.append(f"out ok {out.get('status', 200)} {fmt_headers(dict(sorted(out.get('headers', {}).items())))} "
-                         f"{tok_str(out.get('body', ''))}")
+                         f"{tok_str(out.get('body', ''))} {'T' if is_utf8(raw_body(out)) else 'F'}")
+            cs = out.get("headers", {}).get("Content-Type", "")
+            tags.add("charset:" + (cs.split("charset=")[1] if "charset=" in cs else "undeclared"))
     for out in ops:
         tags.add(f"out:{out.get('exc', 'ok')}")
         if "exc" in out:
             tags.add(f"stage:{out['stage']}")
     session = FakeSession(script)
     orig = A.ClientSession
+    set_logging(logmode)
     try:
         if kind == "plain":
             A.ClientSession = lambda *a, **k: session  # type: ignore[assignment,misc]
@@ -220,6 +284,7 @@ def run_recipe(ctx: Ctx, recipe: Dict[str, Any], cid: str) -> Case:
             tags.add(f"res:{type(e).__name__}")
     finally:
         A.ClientSession = orig  # type: ignore[misc]
+        set_logging("off")
     for (_m, cu, ch) in session.calls:
         lines.append(f"call {tok_str(cu)} {fmt_headers(ch)}")
     lines.append(rl)
@@ -271,9 +336,13 @@ OWN_VARIANTS: List[Optional[Dict[str, str]]] = [None, {"User-Agent": "ua/1"}, {"
 
 def mk_out(rng, name: str, i: int, stage: Optional[str] = None) -> Dict[str, Any]:
     if name == "ok":
-        return {"status": [200, 200, 404, 500, 204][(i + rng.randrange(5)) % 5],
-                "headers": {"Content-Type": "text/xml", "X-N": str(rng.randrange(100))},
-                "body": f"<b n='{i}-{rng.randrange(1000)}'>é</b>"}
+        ctype = rng.choice(["text/xml", "text/xml", 'text/xml; charset="utf-8"', "text/xml; charset=ISO-8859-1",
+                            "text/xml; charset=utf-16", "text/xml; charset=windows-1252"])
+        hdrs = {"Content-Type": ctype, "X-N": str(rng.randrange(100))}
+        if rng.random() < 0.3:
+            hdrs["X-Friendly-Name"] = rng.choice(["Größe", "客厅", "é"])
+        return {"status": [200, 200, 404, 500, 204][(i + rng.randrange(5)) % 5], "headers": hdrs,
+                "body": f"<b n='{i}-{rng.randrange(1000)}'>é ü ß</b>"}
     st = stage or STAGES[rng.randrange(4)]
     if name == "UnicodeDecodeError" and stage is None and rng.random() < 0.7:
         st = "text"
@@ -291,6 +360,9 @@ def _work(args):
     return [run_recipe(ctx, rec, cid) for cid, rec in chunk]
 
 
+LOGMODES = ["off", "traffic", "traffic", "module", "both"]
+
+
 def generate(ctx: Ctx) -> List[Case]:
     rng = ctx.rng
     search = getattr(ctx, "search", False)
@@ -299,7 +371,8 @@ def generate(ctx: Ctx) -> List[Case]:
 
     def add(kind, u, own, caller, ops, prefix="g"):
         nonlocal i
-        cases.append(run_recipe(ctx, {"kind": kind, "url": u, "own": own, "caller": caller, "ops": ops}, f"{prefix}{i}"))
+        cases.append(run_recipe(ctx, {"kind": kind, "url": u, "own": own, "caller": caller, "ops": ops,
+                                      "log": rng.choice(LOGMODES)}, f"{prefix}{i}"))
         i += 1
 
     # corpus: design-time probes
@@ -313,6 +386,16 @@ def generate(ctx: Ctx) -> List[Case]:
                 for kind in ("plain", "session", "session+sleep"):
                     first = rng.choice(["ok", "ok", "ServerDisconnectedError", "ClientResponseError"])
                     add(kind, u, own, caller, [mk_out(rng, first, 0), mk_out(rng, "ok", 1)], "h")
+    # logging x charset: every logger configuration x declared/undeclared charsets x requester kind
+    for logmode in ["off", "traffic", "module", "both"]:
+        for ctype in ["text/xml", 'text/xml; charset="utf-8"', "text/xml; charset=ISO-8859-1", "text/xml; charset=utf-16",
+                      "text/xml; charset=windows-1252"]:
+            for kind in ("plain", "session", "session+sleep"):
+                ok = {"status": 200, "headers": {"Content-Type": ctype, "X-Friendly-Name": "Größe 客厅"}, "body": "<r>é ü ß</r>"}
+                for ops in ([ok], [mk_out(rng, "ServerDisconnectedError", 0), ok], [mk_out(rng, "UnicodeDecodeError", 0, "text")]):
+                    cases.append(run_recipe(ctx, {"kind": kind, "url": rng.choice(URLS), "own": None, "caller": None, "ops": ops,
+                                                  "log": logmode}, f"l{i}"))
+                    i += 1
     # plain requester: every class at every stage
     alpha = ["ok"] + TRANSPORT
     for name in alpha:
@@ -335,7 +418,7 @@ def generate(ctx: Ctx) -> List[Case]:
         for seq in itertools.product(alpha, repeat=4):
             u = URLS[rng.randrange(len(URLS))]
             jobs.append((f"e4_{i}", {"kind": "session", "url": u, "own": None, "caller": rng.choice(caller_variants(u)),
-                                     "ops": [mk_out(rng, nm, j) for j, nm in enumerate(seq)]}))
+                                     "ops": [mk_out(rng, nm, j) for j, nm in enumerate(seq)], "log": rng.choice(LOGMODES)}))
             i += 1
         n = 12
         lite = Ctx(ctx.prop, ctx.tier, ctx.seed, ctx.work, ctx.deadline)
@@ -373,6 +456,11 @@ CORPUS: List[Dict[str, Any]] = [
      "ops": [{"exc": "TimeoutError", "stage": "read"}, {"exc": "ClientResponseError", "stage": "enter", "st": 404}]},
     # undecodable body
     {"kind": "plain", "url": URLS[0], "own": None, "caller": None, "ops": [{"exc": "UnicodeDecodeError", "stage": "text"}]},
+    # successful exchange, body in a declared non-UTF-8 charset, traffic logger at DEBUG (logging must be transparent)
+    {"kind": "session", "url": URLS[0], "own": None, "caller": None, "log": "traffic",
+     "ops": [{"status": 200, "headers": {"Content-Type": "text/xml; charset=ISO-8859-1", "X-Name": "Größe"}, "body": "<n>café</n>"}]},
+    {"kind": "plain", "url": URLS[0], "own": None, "caller": None, "log": "both",
+     "ops": [{"status": 200, "headers": {"Content-Type": "text/xml; charset=utf-16"}, "body": "<n>ü</n>"}]},
 ]
 
 
